@@ -545,7 +545,10 @@ class Flow:
             elif how[0] == "unpack":
                 v = self.expand(how[1], d, depth - 1, st)
                 for i in how[2]:
-                    v = self._call("__item__", v, ast.Constant(value=i))
+                    if isinstance(v, (ast.Tuple, ast.List)) and isinstance(i, int) and i < len(v.elts) and not any(isinstance(x, ast.Starred) for x in v.elts):
+                        v = v.elts[i]
+                    else:
+                        v = self._call("__item__", v, ast.Constant(value=i))
                 alts.append(v)
             elif how[0] == "aug":
                 prev = self._expand_name(copy.deepcopy(n), d, depth - 1, st)
